@@ -119,7 +119,8 @@ class Session(ApplicationSession):
         self.rec.cb("onWelcome")
         w = self.rec.user["welcome"]
         if w == "deny":
-            return "denied by test"
+            # anything other than None / False is an error message - also an empty one
+            return self.rec.rng.choice(["denied by test", "denied by test", ""])
         if w == "raise":
             raise RuntimeError("onWelcome boom")
         return None
@@ -619,8 +620,12 @@ def scenario(rng, profile):
                     if got != exp:
                         R.bad("argsOk", "progress handler got %r, reply carried %r" % (got, exp))
 
+            async def on_progress_co(*a, **kw):          # a progress handler declared async: it must run all the same
+                on_progress(*a, **kw)
+            handler = on_progress_co if rng.random() < 0.3 else on_progress
+
             def f():
-                opts = CallOptions(on_progress=on_progress if prog else None, details=det or None, timeout=to)
+                opts = CallOptions(on_progress=handler if prog else None, details=det or None, timeout=to)
                 fut = s.call("com.myapp.proc1", *args, options=opts, **kwargs)
                 rid = R.last_req()
                 R.requests[rid] = dict(kind="call", details=det, retry=(rng.random() < 0.2))
@@ -628,15 +633,19 @@ def scenario(rng, profile):
             api("call", f, progress=prog, bad=bad)
         elif choice == "publish":
             ack = rng.random() < 0.6
-            po = dict(exclude_me=rng.choice([None, None, True, False]), exclude=rng.choice([None, None, [7], [7, 8]]),
-                      eligible=rng.choice([None, None, [9]]), retain=rng.choice([None, None, True, False]))
+            # (the white / black lists may be given as one value or as a list: on the wire they are lists of exactly those values)
+            po = dict(exclude_me=rng.choice([None, None, True, False]), exclude=rng.choice([None, None, [7], [7, 8], 7]),
+                      eligible=rng.choice([None, None, [9], 9]), retain=rng.choice([None, None, True, False]),
+                      exclude_authid=rng.choice([None, None, None, "bob", ["bob", "eve"]]), exclude_authrole=rng.choice([None, None, None, "guest", ["guest", "anon"]]),
+                      eligible_authid=rng.choice([None, None, None, "alice", ["alice"]]), eligible_authrole=rng.choice([None, None, None, "admin", ["admin", "ops"]]))
+            po_wire = {k: ([v] if k not in ("exclude_me", "retain") and v is not None and not isinstance(v, list) else v) for k, v in po.items()}
             bad = ""
             if R.tr.max_size and rng.random() < 0.12:
                 bad = rng.choice(["ser", "size"])
                 args = [Unserializable()] if bad == "ser" else ["x" * (R.tr.max_size + 500)]
                 R.expect_sent = None
             else:
-                R.expect_sent = dict(uri="com.myapp.topic1", args=args, kwargs=kwargs, ack=ack, opts=po)
+                R.expect_sent = dict(uri="com.myapp.topic1", args=args, kwargs=kwargs, ack=ack, opts=po_wire)
 
             def f():
                 fut = s.publish("com.myapp.topic1", *args, options=PublishOptions(acknowledge=ack, **po), **kwargs)
